@@ -445,6 +445,177 @@ theorem admt_consistent_interior (hjet : CoefficientsMatchJet) [CharZero α]
   push_cast
   ring
 
+/-! ## Proof-deepening pass -/
+
+/-- master formula, with the row table identified as the one of the cell's boundary class -/
+theorem opTimes_quadratic_stencil (nx ny k : Nat) (h2x : 2 ≤ nx) (h2y : 2 ≤ ny) (hk : k < nx * ny) :
+    ∃ t, stencil (clsOf nx ny (k / ny) (k % ny)) = some t ∧ StencilFacts (clsOf nx ny (k / ny) (k % ny)) t ∧
+      ∀ (op : Op5) (dx dy x0 y0 a0 a1 a2 a3 a4 a5 : α),
+        opTimes nx ny dx dy op (sample ny x0 y0 dx dy (quad a0 a1 a2 a3 a4 a5)) k =
+          some ((quad a0 a1 a2 a3 a4 a5 (cx0 ny x0 dx k) (cy0 ny y0 dy k) * (mom t op 0 0 : α)
+            + (a1 + 2 * a3 * cx0 ny x0 dx k + a4 * cy0 ny y0 dy k) * dx * (mom t op 1 0 : α)
+            - (a2 + a4 * cx0 ny x0 dx k + 2 * a5 * cy0 ny y0 dy k) * dy * (mom t op 0 1 : α)
+            + a3 * dx ^ 2 * (mom t op 2 0 : α) - a4 * (dx * dy) * (mom t op 1 1 : α)
+            + a5 * dy ^ 2 * (mom t op 0 2 : α)) / (4 * scaleDen op dx dy)) := by
+  obtain ⟨hx, hy⟩ := cell_bounds hk
+  obtain ⟨t, ht, hf, hd⟩ := dense_dot_eq_stencil (α := α) nx ny (k / ny) (k % ny) hx hy h2x h2y
+  have hst : stencil (clsOf nx ny (k / ny) (k % ny)) = some t := by
+    unfold rowTable at ht; rw [hasOf_full nx ny _ _ hx hy] at ht; exact ht
+  refine ⟨t, hst, hf, ?_⟩
+  intro op dx dy x0 y0 a0 a1 a2 a3 a4 a5
+  have h1 : opTimes nx ny dx dy op (sample ny x0 y0 dx dy (quad a0 a1 a2 a3 a4 a5)) k =
+      some (applyStencil t op dx dy (fun di dj => sample ny x0 y0 dx dy (quad a0 a1 a2 a3 a4 a5)
+        ((((k / ny : Nat) : Int) + di).toNat * ny + (((k % ny : Nat) : Int) + dj).toNat))) := by
+    unfold opTimes cellOf; rw [ht, Option.map_some, hd]
+  rw [h1, sample_offsets nx ny k hk t hf,
+    applyStencil_quadratic t op (fun p => hf.den op (Op5.mem_all op) p (Pos.mem_all p))]
+
+/-- **What every operator returns on a quadratic field in *every* cell — interior, edge and corner — of a grid of any
+size `n_x, n_y ≥ 2`.**  With `σx = +1 / −1 / 0` in the first / last / other columns and `σy = −1 / +1 / 0` in the top /
+bottom / other rows (`Cls.sx`, `Cls.sy`):
+* `Dx = ∂f/∂x + σx·a₃·dx`, `Dy = ∂f/∂y + σy·a₅·dy` (exact in the interior, first-order one-sided error at the edges,
+  hence exact for linear fields everywhere);
+* `Dxy = a₄` everywhere;
+* `Dxx = 2a₃` where `σx = 0`, but in the first and last column `Dxx = (∂f/∂x + σx·a₃·dx)/dx` — the one-sided *first*
+  difference divided by `dx` ("second version" of the boundary formulae): it annihilates constants but is **not** a
+  discretisation of `∂²/∂x²` there; likewise `Dyy` in the top and bottom rows.  (The property claims second-derivative
+  exactness for interior cells only; this theorem makes precise what happens elsewhere.) -/
+theorem ops_quadratic_every_cell (nx ny k : Nat) (h2x : 2 ≤ nx) (h2y : 2 ≤ ny) (hk : k < nx * ny)
+    (dx dy x0 y0 a0 a1 a2 a3 a4 a5 : α) (hdx : dx ≠ 0) (hdy : dy ≠ 0) :
+    let c := clsOf nx ny (k / ny) (k % ny)
+    let v := sample ny x0 y0 dx dy (quad a0 a1 a2 a3 a4 a5)
+    let fx := a1 + 2 * a3 * cx0 ny x0 dx k + a4 * cy0 ny y0 dy k
+    let fy := a2 + a4 * cx0 ny x0 dx k + 2 * a5 * cy0 ny y0 dy k
+    opTimes nx ny dx dy .Dx v k = some (fx + (c.sx : α) * a3 * dx) ∧
+    opTimes nx ny dx dy .Dy v k = some (fy + (c.sy : α) * a5 * dy) ∧
+    opTimes nx ny dx dy .Dxy v k = some a4 ∧
+    opTimes nx ny dx dy .Dxx v k = some (if c.sx = 0 then 2 * a3 else (fx + (c.sx : α) * a3 * dx) / dx) ∧
+    opTimes nx ny dx dy .Dyy v k = some (if c.sy = 0 then 2 * a5 else (fy + (c.sy : α) * a5 * dy) / dy) := by
+  intro c v fx fy
+  obtain ⟨t, hst, hf, h⟩ := opTimes_quadratic_stencil (α := α) nx ny k h2x h2y hk
+  have hb := boundary_facts c (clsOf_valid nx ny _ _ h2x h2y) t hst
+  have hDx := hb.dx
+  have hDy := hb.dy
+  have hDxy := hf.dxy
+  simp only [moms, List.cons.injEq, and_true] at hDx hDy hDxy
+  refine ⟨?_, ?_, ?_, ?_, ?_⟩
+  · obtain ⟨m1, m2, m3, m4, m5, m6⟩ := hDx
+    simp only [v]; rw [h, m1, m2, m3, m4, m5, m6]
+    simp only [scaleDen, fx]; push_cast; congr 1; field_simp; ring
+  · obtain ⟨m1, m2, m3, m4, m5, m6⟩ := hDy
+    simp only [v]; rw [h, m1, m2, m3, m4, m5, m6]
+    simp only [scaleDen, fy]; push_cast; congr 1; field_simp; ring
+  · obtain ⟨m1, m2, m3, m4, m5, m6⟩ := hDxy
+    simp only [v]; rw [h, m1, m2, m3, m4, m5, m6]
+    simp only [scaleDen]; push_cast; congr 1; field_simp; ring
+  · have hD := hb.dxx
+    by_cases hs : c.sx = 0
+    · rw [if_pos hs] at hD ⊢
+      simp only [moms, List.cons.injEq, and_true] at hD
+      obtain ⟨m1, m2, m3, m4, m5, m6⟩ := hD
+      simp only [v]; rw [h, m1, m2, m3, m4, m5, m6]
+      simp only [scaleDen, Cherab.Admt.sq]; push_cast; congr 1; field_simp; ring
+    · rw [if_neg hs] at hD ⊢
+      simp only [moms, List.cons.injEq, and_true] at hD
+      obtain ⟨m1, m2, m3, m4, m5, m6⟩ := hD
+      simp only [v]; rw [h, m1, m2, m3, m4, m5, m6]
+      simp only [scaleDen, Cherab.Admt.sq, fx]; push_cast; congr 1; field_simp; ring
+  · have hD := hb.dyy
+    by_cases hs : c.sy = 0
+    · rw [if_pos hs] at hD ⊢
+      simp only [moms, List.cons.injEq, and_true] at hD
+      obtain ⟨m1, m2, m3, m4, m5, m6⟩ := hD
+      simp only [v]; rw [h, m1, m2, m3, m4, m5, m6]
+      simp only [scaleDen, Cherab.Admt.sq]; push_cast; congr 1; field_simp; ring
+    · rw [if_neg hs] at hD ⊢
+      simp only [moms, List.cons.injEq, and_true] at hD
+      obtain ⟨m1, m2, m3, m4, m5, m6⟩ := hD
+      simp only [v]; rw [h, m1, m2, m3, m4, m5, m6]
+      simp only [scaleDen, Cherab.Admt.sq, fy]; push_cast; congr 1; field_simp; ring
+
+/-- non-vacuity: corner voxel 0 of a 2 × 3 grid has `σx = 1, σy = −1`; its `Dxx` on `f = x²` is the first difference
+`(0 + dx)/dx = 1`, not `2` -/
+example : (clsOf 2 3 0 0).sx = 1 ∧ (clsOf 2 3 0 0).sy = -1 := by decide
+example : opTimes 2 3 (1 : ℚ) 1 .Dxx (sample 3 0 0 1 1 (quad 0 0 0 1 0 0)) 0 = some 1 := by
+  have h := (ops_quadratic_every_cell 2 3 0 (by decide) (by decide) (by decide) (1 : ℚ) 1 0 0 0 0 0 1 0 0
+    one_ne_zero one_ne_zero).2.2.2.1
+  have hs : (clsOf 2 3 (0 / 3) (0 % 3)).sx = 1 := by decide
+  simp only [hs, cx0, cy0] at h
+  rw [h]; norm_num
+
+/-! ### the isotropic and the consistency clause, unconditionally, for the current source
+
+`admt_isotropic_laplacian_verdict` / `admt_coefficients_jet_verdict` have the statement
+`match dnormCxSlot with | .dpsidxdy => clause | _ => ¬ clause`; on a tree where `dnorm_term_cx` reads `dpsidxdy` they *are*
+the clauses (definitional unfolding).  The theorems below stop compiling if that ever regresses. -/
+
+/-- **anisotropy 1 ⇒ Laplacian as an identity of the generated coefficient formulas** (whatever the flux map) -/
+theorem admt_isotropic_coefficients : IsotropicIsLaplacian := admt_isotropic_laplacian_verdict
+
+/-- the generated coefficients are the jet expansion of `div(D ∇f)` -/
+theorem admt_coefficients_match_jet : CoefficientsMatchJet := admt_coefficients_jet_verdict
+
+/-- **`calculate_admt(…, anisotropy = 1) = (Dxx + Dyy + diag(1/R)·Dx)·√(dx·dy)`, entry by entry**, for every grid
+`n_x, n_y ≥ 2`, every cell, every flux map whose discrete gradient does not vanish there, every `R ≠ 0` -/
+theorem admt_isotropic_is_laplacian_full [CharZero α]
+    (nx ny i j : Nat) (h2x : 2 ≤ nx) (h2y : 2 ≤ ny) (hi : i < nx * ny)
+    (sqrt : α → α) (radii psi : Nat → α) (gdx gdy dx dy : α)
+    (hR : radii i ≠ 0) (hN : normalisationAt nx ny gdx gdy psi i ≠ 0) :
+    admtEntry sqrt (nx * ny) radii (genOp nx ny gdx gdy) psi dx dy 1 i j =
+      (genOp nx ny gdx gdy .Dxx i j + genOp nx ny gdx gdy .Dyy i j + genOp nx ny gdx gdy .Dx i j / radii i)
+        * sqrt (dx * dy) :=
+  admt_isotropic_is_laplacian admt_isotropic_coefficients nx ny i j h2x h2y hi sqrt radii psi gdx gdy dx dy hR hN
+
+/-- **consistency in interior cells** (see `admt_consistent_interior`), without hypothesis on the source -/
+theorem admt_consistent_interior_full [CharZero α]
+    (nx ny i : Nat) (h2x : 2 ≤ nx) (h2y : 2 ≤ ny) (hi : i < nx * ny) (hint : interiorCell nx ny i)
+    (sqrt : α → α) (radii psi : Nat → α) (gdx gdy dx dy an x0 y0 a0 a1 a2 a3 a4 a5 : α)
+    (hgx : gdx ≠ 0) (hgy : gdy ≠ 0) (ha : an ≠ 0)
+    (hR : radii i ≠ 0) (hN : normalisationAt nx ny gdx gdy psi i ≠ 0) :
+    dotN (nx * ny) (admtEntry sqrt (nx * ny) radii (genOp nx ny gdx gdy) psi dx dy an i)
+        (sample ny x0 y0 gdx gdy (quad a0 a1 a2 a3 a4 a5)) =
+      specDiv (dotN (nx * ny) (genOp nx ny gdx gdy .Dx i) psi) (dotN (nx * ny) (genOp nx ny gdx gdy .Dy i) psi)
+          (dotN (nx * ny) (genOp nx ny gdx gdy .Dxx i) psi) (dotN (nx * ny) (genOp nx ny gdx gdy .Dxy i) psi)
+          (dotN (nx * ny) (genOp nx ny gdx gdy .Dyy i) psi) ⟨1 / an, 0, 0⟩ ⟨1, 0, 0⟩ (radii i)
+          (a1 + 2 * a3 * cx0 ny x0 gdx i + a4 * cy0 ny y0 gdy i)
+          (a2 + a4 * cx0 ny x0 gdx i + 2 * a5 * cy0 ny y0 gdy i) (2 * a3) a4 (2 * a5)
+        * sqrt (dx * dy) :=
+  admt_consistent_interior admt_coefficients_match_jet nx ny i h2x h2y hi hint sqrt radii psi gdx gdy dx dy an
+    x0 y0 a0 a1 a2 a3 a4 a5 hgx hgy ha hR hN
+
+/-- non-vacuity of the two theorems above: their hypotheses hold for `ψ = x + y` on every grid (`|∇ψ|² = 2`, see the
+example after `admt_consistent_interior`), `R = x ≥ 1`, and voxel 4 of a 3 × 3 grid is interior -/
+example : admtEntry (fun x : ℚ => x) (3 * 3) (fun k => 1 + (k / 3 : Nat)) (genOp 3 3 1 1)
+      (sample 3 0 0 1 1 (fun X Y => 0 + 1 * X + 1 * Y)) 1 1 1 4 4 =
+    (genOp 3 3 (1 : ℚ) 1 .Dxx 4 4 + genOp 3 3 1 1 .Dyy 4 4 + genOp 3 3 1 1 .Dx 4 4 / (1 + (4 / 3 : Nat))) * (1 * 1) := by
+  refine admt_isotropic_is_laplacian_full 3 3 4 4 (by decide) (by decide) (by decide) _ _ _ 1 1 1 1 (by norm_num) ?_
+  obtain ⟨e1, e2⟩ := dx_dy_exact_linear 3 3 4 (by decide) (by decide) (by decide) (1 : ℚ) 1 0 0 0 1 1 one_ne_zero one_ne_zero
+  unfold normalisationAt
+  rw [opTimes_genOp _ _ _ _ _ _ _ _ e1, opTimes_genOp _ _ _ _ _ _ _ _ e2]
+  norm_num
+
+/-! ### scale invariance of the assembled operator (any dense operators, any size) -/
+
+/-- **`calculate_admt(c·ψ) = calculate_admt(ψ)`, entry by entry**, for *any* five dense operators `M` of any size `n`
+(not only generated ones), any `c ≠ 0` of either sign: the operator depends on the flux map only through the direction
+of its discrete gradient.  (S oracle `depends-on-scale-of-psi`, now a theorem about the model; K carries it to the code.) -/
+theorem admt_scale_invariant {β : Type} [Field β] (sqrt : β → β) (n : Nat) (radii psi : Nat → β)
+    (M : Op5 → Nat → Nat → β) (dx dy an c : β) (i j : Nat) (hc : c ≠ 0) (ha : an ≠ 0) (hR : radii i ≠ 0)
+    (hN : dotN n (M .Dx i) psi * dotN n (M .Dx i) psi + dotN n (M .Dy i) psi * dotN n (M .Dy i) psi ≠ 0) :
+    admtEntry sqrt n radii M (fun k => c * psi k) dx dy an i j = admtEntry sqrt n radii M psi dx dy an i j := by
+  unfold admtEntry admtCoeffs
+  simp only [dotN_smul]
+  rw [admt_coefficients_scale_invariant c an (radii i) _ _ _ _ _ _ _ _ _ hc ha hR hN]
+
+/-- non-vacuity: the hypotheses of `admt_scale_invariant` hold e.g. for a 2-voxel "grid" with `Dx = [[-1, 1], …]` -/
+example : admtEntry (fun x : ℚ => x) 2 (fun _ => 1) (fun op i j => if op = .Dx ∧ j = 1 then 1 else if op = .Dx then -1 else 0)
+      (fun k => (-7) * (k : ℚ)) 1 1 2 0 1 =
+    admtEntry (fun x : ℚ => x) 2 (fun _ => 1) (fun op i j => if op = .Dx ∧ j = 1 then 1 else if op = .Dx then -1 else 0)
+      (fun k => (k : ℚ)) 1 1 2 0 1 := by
+  refine admt_scale_invariant _ 2 _ (fun k => (k : ℚ)) _ 1 1 2 (-7) 0 1 (by norm_num) (by norm_num) (by norm_num) ?_
+  simp [dotN, List.range, List.range.loop]
+
+
 /-! ### non-vacuity -/
 
 /-- the nine boundary classes all occur already on a 3 × 3 grid, and voxel 4 is interior -/
